@@ -83,10 +83,13 @@ theorem len_int (t : List Char) : ((t.length : Int) = 21) = (t.length = 21) := b
   · intro h; exact_mod_cast h
   · intro h; rw [h]; rfl
 
+theorem len_int' (t : List Char) : ((21 : Int) = (t.length : Int)) = (t.length = 21) := by
+  rw [← len_int]; exact propext eq_comm
+
 set_option hygiene false in
 /-- after the zone text is known: assembly, the `len == 21` assertion, the calendar -/
 local macro "date_tail" : tactic => `(tactic| (
-  simp only [append_space, parse_date_eq, len_int]
+  simp only [append_space, parse_date_eq, len_int, len_int']
   split
   · rename_i hl
     simp only [decide_eq_true_eq] at hl
